@@ -458,6 +458,16 @@ class Variable:
                 )
 
         try:
+            if (
+                numpy.issubdtype(self.dtype, numpy.integer)
+                and isinstance(value, (int, float))
+                and not isinstance(value, bool)
+                and not numpy.iinfo(self.dtype).min
+                <= value
+                <= numpy.iinfo(self.dtype).max
+            ):
+                # numpy would silently wrap the value around.
+                raise OverflowError
             value = numpy.array([value], dtype=self.dtype)[0]
         except (TypeError, ValueError):
             if self.value_type == datetime.date:
